@@ -827,3 +827,119 @@ class CloseReal:
 
     def close(self):
         self.env.close()
+
+
+# ---------------------------------------------------------------------------------------------
+# Opening handshake (C17, WsHandshake)
+
+ABSENT = "-"
+
+
+def parse_head(head):
+    """(status, {lower-name: [values]}) of a response head (plumbing)."""
+    lines = head.decode("latin1").split("\r\n")
+    parts = lines[0].split(" ", 2)
+    hs = {}
+    for ln in lines[1:]:
+        if ln:
+            n, _, v = ln.partition(":")
+            hs.setdefault(n.strip().lower(), []).append(v.strip())
+    return int(parts[1]), hs
+
+
+def handshake_server_row(row):
+    """Send the upgrade request described by a WsHandshake server row to a real Application."""
+    env = Env()
+    try:
+        pol = row["sub"]["policy"]
+        select = None
+        if pol == "first":
+            select = lambda subs: subs[0] if subs else None
+        elif pol == "last":
+            select = lambda subs: subs[-1] if subs else None
+        side = ServerSide(env, compression={} if row["enabled"] else None, select=select)
+        hs = [("Host", row["origin"]["host"])]
+        if row["upgrade"]["v"] != ABSENT:
+            hs.append(("Upgrade", row["upgrade"]["v"]))
+        if row["connection"]["v"] != ABSENT:
+            hs.append(("Connection", row["connection"]["v"]))
+        if row["key"]["v"] == "present":
+            hs.append(("Sec-WebSocket-Key", KEY))
+        elif row["key"]["v"] == "empty":
+            hs.append(("Sec-WebSocket-Key", ""))
+        if row["version"]["v"] != ABSENT:
+            hs.append(("Sec-WebSocket-Version", row["version"]["v"]))
+        if row["origin"]["v"] != ABSENT:
+            hs.append(("Origin", row["origin"]["v"]))
+        if row["sub"]["offer"] != ABSENT:
+            hs.append(("Sec-WebSocket-Protocol", row["sub"]["offer"]))
+        if row["ext"]["v"] != ABSENT:
+            hs.append(("Sec-WebSocket-Extensions", row["ext"]["v"]))
+        head = side.request(hs)
+        obs = {"status": 0, "accept": None, "upgrade": None, "connection": None, "subprotocol": ABSENT, "deflate": False,
+               "opened": False, "works": False, "closed": side.closed(), "exceptions": [e[1] for e in side.events if e[0] == "exception"]}
+        if head is not None:
+            status, h = parse_head(head)
+            obs["status"] = status
+            obs["accept"] = (h.get("sec-websocket-accept") or [None])[0]
+            obs["upgrade"] = (h.get("upgrade") or [None])[0]
+            obs["connection"] = (h.get("connection") or [None])[0]
+            obs["subprotocol"] = (h.get("sec-websocket-protocol") or [ABSENT])[0]
+            obs["deflate"] = any("permessage-deflate" in v for v in h.get("sec-websocket-extensions", []))
+            obs["ext_header"] = h.get("sec-websocket-extensions", [])
+        obs["opened"] = any(e[0] == "open" for e in side.events)
+        if obs["status"] == 101 and not side.closed():
+            side.feed(encode_header(1, 0, 2, True, 2) + xor_mask(MASK_KEY, b"hi"))
+            obs["works"] = any(e[0] == "msg" and e[1] == b"hi" for e in side.events)
+        return obs
+    finally:
+        env.close()
+
+
+def handshake_client_row(row):
+    """Answer the real client's upgrade request as described by a WsHandshake client row."""
+    env = Env()
+    try:
+        offer = row["sub"]["offer"]
+        c = ClientSide(env, mode="cb", compression={} if row["ext"]["offered"] else None,
+                       subprotocols=offer.split(",") if offer != ABSENT else None)
+        req = c.request_headers()
+        key = req.get("sec-websocket-key", "")
+        status = row["status"]
+        line = {101: "HTTP/1.1 101 Switching Protocols", 200: "HTTP/1.1 200 OK", 400: "HTTP/1.1 400 Bad Request",
+                403: "HTTP/1.1 403 Forbidden"}[status]
+        hs = []
+        if row["upgrade"]["v"] != ABSENT:
+            hs.append(("Upgrade", row["upgrade"]["v"]))
+        if row["connection"]["v"] != ABSENT:
+            hs.append(("Connection", row["connection"]["v"]))
+        a = row["accept"]["v"]
+        if a == "correct":
+            hs.append(("Sec-WebSocket-Accept", accept_for(key)))
+        elif a == "wrong":
+            hs.append(("Sec-WebSocket-Accept", "AAAAAAAAAAAAAAAAAAAAAAAAAAA="))
+        elif a == "otherkey":
+            hs.append(("Sec-WebSocket-Accept", accept_for(KEY)))
+        if row["ext"]["v"] != ABSENT:
+            hs.append(("Sec-WebSocket-Extensions", row["ext"]["v"]))
+        if row["sub"]["v"] != ABSENT:
+            hs.append(("Sec-WebSocket-Protocol", row["sub"]["v"]))
+        if status != 101:
+            hs.append(("Content-Length", "0"))
+        state = c.respond(line, hs)
+        if state == "pending":
+            env.advance(30)
+            state = c.connect_state()
+        obs = {"connect": state, "subprotocol": ABSENT, "works": False,
+               "offered": {"ext": req.get("sec-websocket-extensions", ABSENT), "sub": req.get("sec-websocket-protocol", ABSENT)}}
+        if state == "ok":
+            conn = c.fut.result()
+            c.conn = conn
+            sp = conn.selected_subprotocol
+            obs["subprotocol"] = ABSENT if sp is None else sp
+            if not c.closed():
+                c.feed(encode_header(1, 0, 2, False, 2) + b"hi")
+                obs["works"] = any(e[0] == "msg" and e[1] == b"hi" for e in c.events)
+        return obs
+    finally:
+        env.close()
